@@ -6,7 +6,7 @@
    all 10-bit message types), every decode behaviour d, every status s: any code (in particular
    all 65536), any description (byte list), any nested FieldError / ParameterError tree. *)
 From Coq Require Import NArith List.
-From LLRP Require Import Client.Status Client.StatusProofs.
+From LLRP Require Import Client.Status Client.StatusProofs Client.StatusExchange Client.StatusExchangeProofs.
 Import ListNotations.
 Open Scope N_scope.
 
@@ -130,3 +130,75 @@ Example C12_example_text_refs :
   [TSuccess; TMsg 0; TMsg 12; TUnknown 113; TParam 9; TUnknown 210; TField 1; TUnknown 302;
    TUnknown 400; TDevice 0; TUnknown 402; TUnknown 65535].
 Proof. vm_compute. reflexivity. Qed.
+
+(* ==== round 5: the whole exchange, from the wire ===============================================
+   Model: Client/StatusExchange.v — requests are registered (XSend id e), given up (XAbandon id),
+   frames arrive (XRecv f, f = header version / type / id / payload), the negotiated version changes
+   (XNegotiated v); [xresults v evs] = what each caller was told, in order.  All theorems are for ALL
+   event lists: any number of outstanding requests, any interleaving of other requests' sends,
+   abandons and replies, late / duplicate / never-requested ids, reader-initiated frames, all header
+   versions and all negotiated versions (unbounded N, so in particular the 8 values of the 3-bit field). *)
+
+(* the caller of request [id] is told the outcome of ITS OWN reply — the first frame with its id that
+   is not a keep-alive / report / event — whatever else happens between the request and that reply *)
+Theorem C12_exchange_reports_own_reply : forall v pre id e mid f post,
+  Forall (quiet id) mid -> fr_id f = id -> reader_initiated (fr_type f) = false ->
+  In (id, XOutcome (send_for_outcome e (fr_type f) (fr_dec f)))
+     (xresults v (pre ++ XSend id e :: mid ++ XRecv f :: post)).
+Proof. exact own_reply_outcome. Qed.
+Print Assumptions C12_exchange_reports_own_reply.
+
+(* ... and nothing else: every outcome a caller is told was computed from a frame that carries the
+   caller's request id and arrived while that request was outstanding (never from a frame with
+   another id, such as the late answer to an abandoned request) *)
+Theorem C12_exchange_outcome_only_from_own_reply : forall v evs id o,
+  In (id, XOutcome o) (xresults v evs) ->
+  exists pre e mid f post,
+    evs = pre ++ XSend id e :: mid ++ XRecv f :: post /\ Forall (quiet id) mid /\
+    fr_id f = id /\ reader_initiated (fr_type f) = false /\
+    o = send_for_outcome e (fr_type f) (fr_dec f).
+Proof. exact outcome_from_own_reply. Qed.
+Print Assumptions C12_exchange_outcome_only_from_own_reply.
+
+(* sentence 1 of the property at the level of the exchange: success exactly when the request's own
+   reply has the expected type and carries status Success *)
+Theorem C12_exchange_success_iff : forall v pre id e mid f post s,
+  Forall (quiet id) mid -> fr_id f = id -> reader_initiated (fr_type f) = false ->
+  fr_dec f e = DecStatus s ->
+  exists o, In (id, XOutcome o) (xresults v (pre ++ XSend id e :: mid ++ XRecv f :: post)) /\
+            (out_err o = None <-> fr_type f = e /\ st_code s = 0).
+Proof. exact exchange_success_iff. Qed.
+Print Assumptions C12_exchange_success_iff.
+
+(* the header version of a frame and the negotiated version of the connection play no part in what
+   callers are told *)
+Theorem C12_exchange_version_irrelevant : forall v v' evs evs',
+  Forall2 same_but_version evs evs' -> xresults v evs = xresults v' evs'.
+Proof. exact version_irrelevant. Qed.
+Print Assumptions C12_exchange_version_irrelevant.
+
+(* non-vacuity: request 7 is abandoned; while request 8 (expecting type 30) is the only one outstanding
+   the reader's late ERROR_MESSAGE for 7 arrives (status 101), then a never-requested id, then 8's own
+   reply — stamped with header version 7 on a connection negotiated to 1 — with status Success *)
+Definition ex_history : list xevent :=
+  [XSend 7 30; XAbandon 7; XSend 8 30;
+   XRecv (mkFrame 1 100 7 (decoded_wf (mkStatus 101 [111] None None)));
+   XRecv (mkFrame 2 100 4096 (decoded_wf ex_status));
+   XRecv (mkFrame 7 30 8 (decoded_wf (mkStatus 0 [] None None)))].
+
+Example C12_example_history :
+  xresults 1 ex_history =
+  [(7, XAbandoned); (8, XOutcome (mkOutcome None (RespDecoded (Some (mkStatus 0 [] None None)))))].
+Proof. vm_compute. reflexivity. Qed.
+
+Example C12_example_history_hyps :
+  ex_history = [XSend 7 30; XAbandon 7] ++ XSend 8 30 ::
+     [XRecv (mkFrame 1 100 7 (decoded_wf (mkStatus 101 [111] None None)));
+      XRecv (mkFrame 2 100 4096 (decoded_wf ex_status))] ++
+     XRecv (mkFrame 7 30 8 (decoded_wf (mkStatus 0 [] None None))) :: [] /\
+  Forall (quiet 8) [XRecv (mkFrame 1 100 7 (decoded_wf (mkStatus 101 [111] None None)));
+                    XRecv (mkFrame 2 100 4096 (decoded_wf ex_status))].
+Proof.
+  split; [reflexivity|].
+  apply Forall_cons; [right; cbn; discriminate|]. apply Forall_cons; [right; cbn; discriminate|]. apply Forall_nil.
+Qed.
